@@ -10,13 +10,15 @@ Local Open Scope N_scope.
 Definition wire_bytes (fl : N) (d : bytes) : bytes := hdr_of fl (lenN d) ++ d.
 
 (* cleartext operations of an endpoint before the key is installed *)
-Inductive cop := CSend (d : bytes) (fl : N) | CRecv (fl : N) (d : bytes).
+Inductive cop := CSend (d : bytes) (fl : N) | CRecv (fl : N) (d : bytes)
+               | CSetConn (addr : bytes).     (* SetConnection in the middle of the negotiation *)
 
 Definition clear_step (s : stream) (o : cop) : option stream :=
   match o with
   | CSend d fl => match send_frame s d fl with (s1, SOk _) => Some s1 | (_, SErr _) => None end
   | CRecv fl d => match recv_frame_we s {| f_flag := fl; f_body := Raw d |} with
                   | (s1, SOk _) => Some s1 | (_, SErr _) => None end
+  | CSetConn addr => Some (set_connection s addr)
   end.
 Fixpoint clear_run (s : stream) (ops : list cop) : option stream :=
   match ops with
@@ -29,17 +31,19 @@ Fixpoint sent_bytes (ops : list cop) : bytes :=
   | [] => []
   | CSend d fl :: r => wire_bytes fl d ++ sent_bytes r
   | CRecv _ _ :: r => sent_bytes r
+  | CSetConn _ :: r => sent_bytes r
   end.
 Fixpoint recvd_bytes (ops : list cop) : bytes :=
   match ops with
   | [] => []
   | CRecv fl d :: r => wire_bytes fl d ++ recvd_bytes r
   | CSend _ _ :: r => recvd_bytes r
+  | CSetConn _ :: r => recvd_bytes r
   end.
 Fixpoint any_sent (ops : list cop) : bool :=
-  match ops with [] => false | CSend _ _ :: _ => true | CRecv _ _ :: r => any_sent r end.
+  match ops with [] => false | CSend _ _ :: _ => true | CRecv _ _ :: r => any_sent r | CSetConn _ :: r => any_sent r end.
 Fixpoint any_recvd (ops : list cop) : bool :=
-  match ops with [] => false | CRecv _ _ :: _ => true | CSend _ _ :: r => any_recvd r end.
+  match ops with [] => false | CRecv _ _ :: _ => true | CSend _ _ :: r => any_recvd r | CSetConn _ :: r => any_recvd r end.
 
 (* a stream still in its cleartext phase: no key, digests running *)
 Record clear_phase (s : stream) (sb rb : bytes) (sw rw : bool) : Prop := {
@@ -85,7 +89,10 @@ Proof.
   induction ops as [|o ops IH]; intros s s' sb rb sw rw C Hr; cbn [clear_run] in Hr.
   - injection Hr as <-. cbn [sent_bytes recvd_bytes any_sent any_recvd]. rewrite !app_nil_r, !orb_false_r. exact C.
   - destruct (clear_step s o) as [s1|] eqn:E1; [|discriminate].
-    destruct o as [d fl|fl d]; cbn [clear_step] in E1.
+    destruct o as [d fl|fl d|addr]; cbn [clear_step] in E1.
+    3: { injection E1 as <-.
+         assert (C1 : clear_phase (set_connection s addr) sb rb sw rw) by (destruct C as [Hk Hsd Hrd]; constructor; assumption).
+         specialize (IH _ _ _ _ _ _ C1 Hr). cbn [sent_bytes recvd_bytes any_sent any_recvd]. exact IH. }
     + destruct (send_frame s d fl) as [s2 [f|e]] eqn:Es; [|discriminate]. injection E1 as <-.
       pose proof (clear_send_step _ _ _ _ _ _ _ _ _ C Es) as C1.
       specialize (IH _ _ _ _ _ _ C1 Hr). cbn [sent_bytes recvd_bytes any_sent any_recvd].
@@ -107,17 +114,17 @@ Proof. unfold wire_bytes, hdr_of. cbn [app]. discriminate. Qed.
 Local Opaque hdr_of.
 
 Lemma any_sent_bytes ops : any_sent ops = false -> sent_bytes ops = [].
-Proof. induction ops as [|[d fl|fl d] ops IH]; cbn; [reflexivity|discriminate|exact IH]. Qed.
+Proof. induction ops as [|[d fl|fl d|addr] ops IH]; cbn; [reflexivity|discriminate|exact IH|exact IH]. Qed.
 Lemma any_recvd_bytes ops : any_recvd ops = false -> recvd_bytes ops = [].
-Proof. induction ops as [|[d fl|fl d] ops IH]; cbn; [reflexivity|exact IH|discriminate]. Qed.
+Proof. induction ops as [|[d fl|fl d|addr] ops IH]; cbn; [reflexivity|exact IH|discriminate|exact IH]. Qed.
 Lemma sent_bytes_any ops : any_sent ops = true -> sent_bytes ops <> [].
 Proof.
-  induction ops as [|[d fl|fl d] ops IH]; cbn; [discriminate| |exact IH].
+  induction ops as [|[d fl|fl d|addr] ops IH]; cbn; [discriminate| |exact IH|exact IH].
   intros _ E. apply app_eq_nil in E as [E _]. exact (wire_bytes_nonempty _ _ E).
 Qed.
 Lemma recvd_bytes_any ops : any_recvd ops = true -> recvd_bytes ops <> [].
 Proof.
-  induction ops as [|[d fl|fl d] ops IH]; cbn; [discriminate|exact IH|].
+  induction ops as [|[d fl|fl d|addr] ops IH]; cbn; [discriminate|exact IH| |exact IH].
   intros _ E. apply app_eq_nil in E as [E _]. exact (wire_bytes_nonempty _ _ E).
 Qed.
 
@@ -192,4 +199,11 @@ Proof.
     + apply any_sent_bytes. + apply any_recvd_bytes. + apply sent_bytes_any. + apply recvd_bytes_any.
   - apply (dval_eq _ (any_recvd opsA) _ (any_sent opsB)); try exact H2.
     + apply any_recvd_bytes. + apply any_sent_bytes. + apply recvd_bytes_any. + apply sent_bytes_any.
+Qed.
+
+(* FinalizeDigests before SetSymmetricKey changes nothing: key installation freezes the same values *)
+Lemma set_key_after_finalize s k iv : set_key (finalize_digests s) k iv = set_key s k iv.
+Proof.
+  unfold set_key, finalize_digests. destruct (negb (lenN k =? KeyLen)); [reflexivity|].
+  proj_simpl. rewrite !dg_finalize_idem. reflexivity.
 Qed.
